@@ -37,6 +37,34 @@ def load_text(text):
         shutil.rmtree(d, ignore_errors=True)
 
 
+def game_sections(text):
+    """the three formatted game texts as written between the fixed framing strings"""
+    out = {}
+    try:
+        a = text.index("{\n 'game_a': ") + len("{\n 'game_a': ")
+        b = text.index(",\n 'game_b': ")
+        c = text.index(",\n 'game_c': ")
+        e = text.rindex("\n}\n")
+        out["game_a"] = text[a:b]
+        out["game_b"] = text[b + len(",\n 'game_b': "):c]
+        out["game_c"] = text[c + len(",\n 'game_c': "):e]
+    except ValueError:
+        pass
+    return out
+
+
+def text_payload(g):
+    def lab(l):
+        if isinstance(l, str):
+            return {"a": l}
+        if isinstance(l, bool) or isinstance(l, int):
+            return {"i": int(l)}
+        return {"n": repr(l)}
+    return {"rewards": [int(r) for r in g["rewards"]], "players": list(g["players"]),
+            "tl": [[[lab(l), t_] for l, t_ in row] for row in g["transition_list"]],
+            "finals": list(g["final_states"])}
+
+
 def proper(ctx, inp, name, g):
     tad = repo("tad")
     try:
@@ -173,6 +201,15 @@ def check_params(ctx, p, model=None, limit=4.0, solve=True):
         ctx.violation("exactly-three-games", inp, {"keys": list(d.keys()) if isinstance(d, dict) else str(type(d))})
         return
     good = all([proper(ctx, inp, k, g) for k, g in d.items()])
+    if model is not None:
+        # the TEXT of each game section of the file vs the text model: surgery(renderLit(gameLit game))
+        secs = game_sections(text)
+        for k, g in d.items():
+            if secs.get(k) is None:
+                continue
+            model.add("gametext", text_payload(g), expect=secs[k], inp=dict(inp, game=k), suite="corr.gentext",
+                      cmp=lambda e, r: None if (r.get("text") == e and r.get("game_ok") is True) else
+                      ("file section differs from surgery(renderLit(game))" if r.get("text") != e else "game outside the text theorem's domain"))
     if model is not None:
         # the board the generator drew, from the recorded draws
         log = r["log"]
